@@ -1,4 +1,5 @@
 import PeliteModel.Lemmas.VersionMisc
+import PeliteModel.Lemmas.VersionU16
 /-!
 C13 — version information is reported completely and unaltered.
 Property theorems only; helper lemmas are in Lemmas/Version*.lean.
@@ -8,7 +9,7 @@ padding in `parse_tlv`).  Specification: `Spec/Version.lean` (documented VS_VERS
 writer `encode`, abstract content).  All statements quantify over every word list / every abstract
 resource; no size bound.
 
-(a) round trip      C13_round_trip, C13_strings_exactly_once, C13_fixed_round_trip, C13_translation_round_trip
+(a) round trip      C13_round_trip, C13_writer_emits_u16, C13_strings_exactly_once, C13_fixed_round_trip, C13_translation_round_trip
 (b) one event list  C13_visit_is_fold_of_events, C13_queries_are_folds, C13_source_renders_every_event,
                     C13_value_agrees_with_strings, C13_file_info_agrees_with_value (+ the two witnesses that the
                     side conditions are needed), C13_file_info_fixed_and_langs
@@ -36,6 +37,12 @@ order, the words unaltered. -/
 theorem C13_round_trip (tight : Bool) (v : VInfo) (hwf : v.wf = true) :
     ∃ es, events (block (v.encode tight)) = .ok es ∧ es.map Event.erase = v.events :=
   ⟨_, events_eq_flat _ (block_al _), flat_encode tight v hwf 0⟩
+
+/-- The blocks of the round trip exist as real resources: when the content words are u16 values and
+the root's length fits its `wLength`, every word the reference writer emits is a u16 value. -/
+theorem C13_writer_emits_u16 (tight : Bool) (v : VInfo) (hu : v.u16 = true) (hf : v.fits tight = true) :
+    ∀ w ∈ v.encode tight, w < 65536 :=
+  encode_U16 tight v hu hf
 
 /-- Every (language, key, value) of the resource is reported exactly once and in stored order:
 reading the reported events back (each string filed under the string table that precedes it)
@@ -331,7 +338,7 @@ def sample : VInfo :=
    [.varInfo [⟨kTranslation, [0x409, 1200]⟩],
     .stringInfo [⟨ofString "040904b0", [⟨ofString "A", []⟩, ⟨ofString "Bc", [0]⟩, ⟨ofString "Def", [120, 0, 121, 0]⟩]⟩]]⟩
 
-example : sample.wf = true ∧ sample.fits true = true ∧
+example : sample.wf = true ∧ sample.u16 = true ∧ sample.fits true = true ∧
     sample.strings = [(ofString "040904b0", [65], []), (ofString "040904b0", [66, 99], []),
                       (ofString "040904b0", [68, 101, 102], [120, 0, 121])] ∧
     sample.translations = [(0x409, 1200)] ∧
